@@ -400,3 +400,543 @@ Proof.
   erewrite mem_of_str_unit; [ | exact Hm | reflexivity | reflexivity | reflexivity | reflexivity | reflexivity ].
   f_equal. f_equal. lia.
 Qed.
+
+(* ================================================================== storage *)
+Lemma assoc_st_set_same : forall m n x, assoc (st_set m n x) n = Some x.
+Proof.
+  induction m as [|[k y] m IH]; intros n x; simpl.
+  - rewrite str_eqb_refl. reflexivity.
+  - destruct (str_eqb k n) eqn:E; simpl; rewrite E; auto.
+Qed.
+
+Lemma assoc_st_set_other : forall m n x q, n <> q -> assoc (st_set m n x) q = assoc m q.
+Proof.
+  induction m as [|[k y] m IH]; intros n x q H; simpl.
+  - apply str_eqb_neq in H. rewrite H. reflexivity.
+  - destruct (str_eqb k n) eqn:E; simpl.
+    + apply str_eqb_eq in E. subst k. apply str_eqb_neq in H. rewrite H. reflexivity.
+    + destruct (str_eqb k q); auto.
+Qed.
+
+Lemma assoc_st_del_same : forall m n, assoc (st_del m n) n = None.
+Proof.
+  induction m as [|[k y] m IH]; intros n; simpl; auto.
+  destruct (str_eqb k n) eqn:E; simpl; auto. rewrite E. auto.
+Qed.
+
+Lemma assoc_st_del_other : forall m n q, n <> q -> assoc (st_del m n) q = assoc m q.
+Proof.
+  induction m as [|[k y] m IH]; intros n q H; simpl; auto.
+  destruct (str_eqb k n) eqn:E; simpl.
+  - apply str_eqb_eq in E. subst k. rewrite (proj2 (str_eqb_neq n q) H). auto.
+  - destruct (str_eqb k q); auto.
+Qed.
+
+(* what apply does to the binding of its own name, and to the others *)
+Lemma apply_own : forall sp o m m', apply sp o m = Ok m' ->
+  apply_cell sp o (assoc m (o_name o)) = Ok (assoc m' (o_name o)).
+Proof.
+  intros sp o m m' H. unfold apply in H.
+  destruct (apply_cell sp o (assoc m (o_name o))) as [c|e]; simpl in H; [|discriminate].
+  injection H as H. subst m'. destruct c.
+  - rewrite assoc_st_set_same. reflexivity.
+  - rewrite assoc_st_del_same. reflexivity.
+Qed.
+
+Lemma apply_frame : forall sp o m m', apply sp o m = Ok m' ->
+  forall q, o_name o <> q -> assoc m' q = assoc m q.
+Proof.
+  intros sp o m m' H q Hq. unfold apply in H.
+  destruct (apply_cell sp o (assoc m (o_name o))) as [c|e]; simpl in H; [|discriminate].
+  injection H as H. subst m'. destruct c.
+  - apply assoc_st_set_other; auto.
+  - apply assoc_st_del_other; auto.
+Qed.
+
+Lemma apply_err : forall sp o m e, apply sp o m = Err e <-> apply_cell sp o (assoc m (o_name o)) = Err e.
+Proof.
+  intros. unfold apply. destruct (apply_cell sp o (assoc m (o_name o))); cbn [bind]; split; intros H;
+    try discriminate; injection H as H; subst; reflexivity.
+Qed.
+
+(* ================================================================== composition across scopes *)
+Definition scope_eqb (a b : scope) : bool :=
+  match a, b with Session, Session | Database, Database | Instance, Instance => true | _, _ => false end.
+
+Lemma scope_eqb_eq : forall a b, scope_eqb a b = true <-> a = b.
+Proof. intros [] []; simpl; split; intros; try discriminate; auto. Qed.
+
+Definition run_all (sp : spec) (y : sys) (os : list op) : sys :=
+  fold_left (fun y o => fst (step sp y o)) os y.
+
+(* the history of one (scope, setting) cell: only the operations addressed to it matter, a failing
+   operation leaves it as it was *)
+Definition cell_step (sp : spec) (sc : scope) (n : str) (c : option sval) (o : op) : option sval :=
+  if scope_eqb (o_scope o) sc && str_eqb (o_name o) n then
+    match apply_cell sp o c with Ok c' => c' | Err _ => c end
+  else c.
+
+Definition cell (sp : spec) (sc : scope) (n : str) (os : list op) : option sval :=
+  fold_left (cell_step sp sc n) os None.
+
+Lemma get_put_same : forall y sc m, get_map (put_map y sc m) sc = m.
+Proof. intros y [] m; reflexivity. Qed.
+
+Lemma get_put_other : forall y sc sc' m, sc <> sc' -> get_map (put_map y sc m) sc' = get_map y sc'.
+Proof. intros y [] [] m H; try reflexivity; contradiction. Qed.
+
+Lemma step_cell : forall sp y o sc n,
+  assoc (get_map (fst (step sp y o)) sc) n = cell_step sp sc n (assoc (get_map y sc) n) o.
+Proof.
+  intros sp y o sc n. unfold step, cell_step.
+  destruct (scope_eqb (o_scope o) sc) eqn:Es.
+  - apply scope_eqb_eq in Es. subst sc.
+    destruct (str_eqb (o_name o) n) eqn:En; cbn [andb].
+    + apply str_eqb_eq in En. subst n.
+      destruct (apply sp o (get_map y (o_scope o))) as [m'|e] eqn:Ea; cbn [fst].
+      * rewrite get_put_same. rewrite (apply_own _ _ _ _ Ea). reflexivity.
+      * apply apply_err in Ea. rewrite Ea. reflexivity.
+    + apply str_eqb_neq in En.
+      destruct (apply sp o (get_map y (o_scope o))) as [m'|e] eqn:Ea; cbn [fst]; auto.
+      rewrite get_put_same. apply (apply_frame _ _ _ _ Ea). auto.
+  - cbn [andb].
+    assert (o_scope o <> sc) by (intro E; apply scope_eqb_eq in E; congruence).
+    destruct (apply sp o (get_map y (o_scope o))); cbn [fst]; auto.
+    rewrite get_put_other; auto.
+Qed.
+
+Lemma run_all_cell_gen : forall sp os y sc n,
+  assoc (get_map (run_all sp y os) sc) n = fold_left (cell_step sp sc n) os (assoc (get_map y sc) n).
+Proof.
+  induction os as [|o os IH]; intros y sc n; simpl; auto.
+  unfold run_all in *. simpl. rewrite IH. rewrite step_cell. reflexivity.
+Qed.
+
+Lemma run_all_cell : forall sp os sc n,
+  assoc (get_map (run_all sp sys0 os) sc) n = cell sp sc n os.
+Proof. intros. rewrite run_all_cell_gen. destruct sc; reflexivity. Qed.
+
+(* C19_lookup: the effective value is the value of the most specific scope whose cell is defined,
+   otherwise the default; cells evolve independently of each other *)
+Theorem p_lookup : forall sp os n,
+  effective sp (run_all sp sys0 os) n =
+  match find_setting (sp_settings sp) n with
+  | None => Err EConfig
+  | Some st =>
+      Ok (match cell sp Session n os with
+          | Some x => v_value x
+          | None => match cell sp Database n os with
+                    | Some x => v_value x
+                    | None => match cell sp Instance n os with
+                              | Some x => v_value x
+                              | None => s_default st
+                              end
+                    end
+          end)
+  end.
+Proof.
+  intros sp os n. unfold effective, lookup.
+  destruct (find_setting (sp_settings sp) n); auto.
+  cbn [lookup_maps].
+  change (m_session (run_all sp sys0 os)) with (get_map (run_all sp sys0 os) Session).
+  change (m_database (run_all sp sys0 os)) with (get_map (run_all sp sys0 os) Database).
+  change (m_instance (run_all sp sys0 os)) with (get_map (run_all sp sys0 os) Instance).
+  rewrite !run_all_cell.
+  destruct (cell sp Session n os); auto.
+  destruct (cell sp Database n os); auto.
+  destruct (cell sp Instance n os); auto.
+Qed.
+
+Theorem p_frame : forall sp o m m', apply sp o m = Ok m' ->
+  forall q, q <> o_name o -> assoc m' q = assoc m q.
+Proof. intros. eapply apply_frame; eauto. Qed.
+
+(* a rejected operation changes nothing, in any scope *)
+Theorem p_reject_atomic : forall sp y o e, snd (step sp y o) = Some e -> fst (step sp y o) = y.
+Proof.
+  intros sp y o e. unfold step. destruct (apply sp o (get_map y (o_scope o))); simpl; intros H; auto.
+  discriminate.
+Qed.
+
+(* the other two scopes are never touched *)
+Theorem p_other_scopes : forall sp y o sc, sc <> o_scope o -> get_map (fst (step sp y o)) sc = get_map y sc.
+Proof.
+  intros sp y o sc H. unfold step. destruct (apply sp o (get_map y (o_scope o))); simpl; auto.
+  apply get_put_other. auto.
+Qed.
+
+(* ================================================================== typing of scalar settings *)
+Lemma coerce_single_typed : forall p v v', coerce_single p v = Ok v' -> inst_of p v' = true.
+Proof.
+  intros p v v' H. unfold coerce_single in H.
+  destruct (inst_of p v) eqn:Ei.
+  - injection H as H. subst. auto.
+  - destruct p; destruct v; try discriminate; simpl in H.
+    + (* enum from text *) unfold enum_ctor in H. destruct (existsb (str_eqb x) members); [|discriminate].
+      injection H as H. subst. simpl. apply N.eqb_refl.
+    + (* duration from text *) unfold dur_ctor in H.
+      destruct (negb (is_ascii x)); [discriminate|].
+      destruct (signed_digits x) as [[[[g nv] ds] [|c r]]|]; try (injection H as H; subst; reflexivity);
+        destruct (parse_iso x); try discriminate; injection H as H; subst; reflexivity.
+    + injection H as H. subst. reflexivity.
+    + injection H as H. subst. reflexivity.
+    + unfold mem_of_str in H. destruct (negb (is_ascii x)); [discriminate|].
+      destruct (str_eqb x [c_0]); [injection H as H; subst; reflexivity|].
+      destruct (span_digits x) as [ds rest]. destruct ds; [discriminate|].
+      destruct (assoc g_mem_parse (strip_final_nl rest)); [|discriminate].
+      injection H as H. subst. reflexivity.
+Qed.
+
+(* payloads that none of the conversion branches of coerce_single_value applies to *)
+Definition convertible (p : ptype) (v : val) : bool :=
+  match p, v with
+  | TDur, VStr _ | TMem, VStr _ | TMem, VInt _ | TMem, VBool _ | TEnum _ _, VStr _ => true
+  | _, _ => false
+  end.
+
+Lemma coerce_single_reject : forall p v, inst_of p v = false -> convertible p v = false ->
+  coerce_single p v = Err EConfig.
+Proof.
+  intros p v Hi Hc. unfold coerce_single. rewrite Hi.
+  destruct p; destruct v; try reflexivity; simpl in Hc; discriminate.
+Qed.
+
+Lemma coerce_single_accept : forall p v, inst_of p v = true -> coerce_single p v = Ok v.
+Proof. intros p v H. unfold coerce_single. rewrite H. reflexivity. Qed.
+
+Definition scalar_setting (sp : spec) (n : str) (p : ptype) (st : setting) : Prop :=
+  find_setting (sp_settings sp) n = Some st /\ s_type st = SPrim p /\ s_set_of st = false.
+
+Theorem p_reject_untyped : forall sp o m p st,
+  scalar_setting sp (o_name o) p st -> o_code o = OSet ->
+  inst_of p (o_value o) = false -> convertible p (o_value o) = false ->
+  apply sp o m = Err EConfig.
+Proof.
+  intros sp o m p st [Hf [Ht Hs]] Hc Hi Hcv. apply apply_err. unfold apply_cell.
+  rewrite Hf, Hc. unfold coerce_value. rewrite Ht, Hs.
+  rewrite (coerce_single_reject _ _ Hi Hcv). destruct (o_value o); reflexivity.
+Qed.
+
+Theorem p_accept_typed : forall sp o m p st,
+  scalar_setting sp (o_name o) p st -> o_code o = OSet -> inst_of p (o_value o) = true ->
+  exists m', apply sp o m = Ok m' /\
+    exists x, assoc m' (o_name o) = Some x /\ v_value x = o_value o /\ v_scope x = o_scope o
+              /\ v_source x = source_of (o_scope o).
+Proof.
+  intros sp o m p st [Hf [Ht Hs]] Hc Hi. unfold apply, apply_cell.
+  rewrite Hf, Hc. unfold coerce_value. rewrite Ht, Hs.
+  rewrite (coerce_single_accept _ _ Hi). cbn [bind].
+  eexists. split; [reflexivity|]. rewrite assoc_st_set_same. eexists. split; [reflexivity|].
+  cbn. auto.
+Qed.
+
+Lemma coerce_all_typed : forall p l acc r, coerce_all p l acc = Ok r ->
+  Forall (fun v => inst_of p v = true) acc -> Forall (fun v => inst_of p v = true) r.
+Proof.
+  induction l as [|v l IH]; intros acc r H Ha; simpl in H.
+  - injection H as H. subst. auto.
+  - destruct (coerce_single p v) as [c|e] eqn:Ec; simpl in H; [|discriminate].
+    apply (IH _ _ H). unfold fs_add. destruct (mem_val c acc); auto.
+    apply Forall_app. split; auto. constructor; auto. eapply coerce_single_typed; eauto.
+Qed.
+
+(* whatever SET stores in a scalar / set-valued scalar setting has the setting's (Python) type *)
+Theorem p_stored_typed : forall sp o m m' p st,
+  find_setting (sp_settings sp) (o_name o) = Some st -> s_type st = SPrim p -> o_code o = OSet ->
+  apply sp o m = Ok m' ->
+  exists x, assoc m' (o_name o) = Some x /\
+    if s_set_of st
+    then exists l, v_value x = VList l /\ Forall (fun v => inst_of p v = true) l
+                   /\ (length l <= g_max_set)%nat
+    else inst_of p (v_value x) = true.
+Proof.
+  intros sp o m m' p st Hf Ht Hc Ha. apply apply_own in Ha. unfold apply_cell in Ha.
+  rewrite Hf, Hc in Ha. unfold coerce_value in Ha. rewrite Ht in Ha.
+  destruct (s_set_of st) eqn:Hs.
+  - destruct (o_value o) eqn:Ev; try discriminate;
+      cbn [container_elems] in Ha;
+      match type of Ha with
+      | context [coerce_all p ?es []] =>
+          destruct (coerce_all p es []) as [lst|e] eqn:Eall; cbn [bind] in Ha; [|discriminate];
+          destruct (too_large lst) eqn:Etl; cbn [bind] in Ha; [discriminate|];
+          injection Ha as Ha; eexists; split; [symmetry; exact Ha|]; cbn;
+          exists lst; split; [reflexivity|]; split;
+          [ eapply coerce_all_typed; eauto
+          | unfold too_large in Etl; apply Nat.ltb_ge in Etl; exact Etl ]
+      end.
+  - destruct (coerce_single p (o_value o)) as [c|e] eqn:Ec.
+    + cbn [bind] in Ha. injection Ha as Ha. eexists. split; [symmetry; exact Ha|]. cbn.
+      eapply coerce_single_typed; eauto.
+    + destruct e; cbn [bind] in Ha; try discriminate. destruct (o_value o); discriminate.
+Qed.
+
+(* RESET deletes the binding of its scope: the effective value falls back to the next scope / default *)
+Theorem p_reset : forall sp o m m', o_code o = OReset -> apply sp o m = Ok m' ->
+  assoc m' (o_name o) = None.
+Proof.
+  intros sp o m m' Hc Ha. apply apply_own in Ha. unfold apply_cell in Ha. rewrite Hc in Ha.
+  destruct (find_setting (sp_settings sp) (o_name o)) as [st|]; [|discriminate].
+  destruct (coerce_value sp st OReset (o_value o) true); cbn [bind] in Ha; [|discriminate].
+  injection Ha as Ha. auto.
+Qed.
+
+(* ================================================================== JSON round trip (scalar settings) *)
+Lemma is_ascii_negs : forall b, is_ascii (negs b) = true.
+Proof. intros []; reflexivity. Qed.
+
+Lemma is_ascii_print_N : forall n, is_ascii (print_N n) = true.
+Proof. intros. apply digits_ascii. apply print_N_digits. Qed.
+
+Lemma is_ascii_cons : forall c l, is_ascii (c :: l) = N.ltb c 128 && is_ascii l.
+Proof. reflexivity. Qed.
+
+Lemma is_ascii_to_iso : forall v, is_ascii (to_iso v) = true.
+Proof.
+  intros v. rewrite to_iso_shape. cbv zeta.
+  destruct (iso_decompose (Z.abs v) (Z.abs_nonneg v)) as [_ [_ [_ [_ Hu]]]]. cbv zeta in Hu.
+  set (b := v <? 0).
+  assert (Hfr : is_ascii (rstrip0 (low_digits g_to_iso_pad (Z.abs v mod g_to_iso_us))) = true).
+  { apply digits_ascii. apply rstrip0_digits. apply low_digits_digits. lia. }
+  match goal with |- context [if ?a =? 0 then [] else negs b ++ print_N ?h ++ [c_H]] => destruct (a =? 0) end;
+  match goal with |- context [if ?a =? 0 then [] else negs b ++ print_N ?h ++ [c_M]] => destruct (a =? 0) end;
+  match goal with |- context [if (?a =? 0) && (?u =? 0) then _ else _] => destruct (a =? 0); destruct (u =? 0) end;
+    cbn [andb Datatypes.app]; repeat rewrite <- app_assoc; cbn [Datatypes.app];
+    try (rewrite body_sel by apply comp_nonnil);
+    repeat first [ rewrite is_ascii_cons | rewrite is_ascii_app | rewrite is_ascii_negs
+                 | rewrite is_ascii_print_N | rewrite Hfr ];
+    reflexivity.
+Qed.
+
+Definition wf_prim (p : ptype) (v : val) : Prop :=
+  match p, v with
+  | TBool, VBool _ | TInt, VInt _ | TInt, VBool _ | TStr, VStr _ | TFloat, VFloat _ | TDur, VDur _ => True
+  | TEnum ty ms, VEnum ty' x => ty = ty' /\ existsb (str_eqb x) ms = true
+  | TMem, VMem z false => 0 <= z
+  | _, _ => False
+  end.
+
+Theorem p_json_prim : forall sp st p v, s_type st = SPrim p -> s_set_of st = false -> wf_prim p v ->
+  exists j, value_to_json sp st v = Ok j /\ value_from_json sp st j = Ok v.
+Proof.
+  intros sp st p v Ht Hs Hwf. unfold value_to_json, value_from_json. rewrite Ht, Hs.
+  destruct p; destruct v; simpl in Hwf; try contradiction; try (eexists; split; reflexivity).
+  - destruct Hwf as [E Hm]. subst ty0. eexists. split; [reflexivity|]. unfold enum_ctor. rewrite Hm. reflexivity.
+  - eexists. split; [reflexivity|]. unfold dur_from_iso. rewrite is_ascii_to_iso, parse_to_iso. reflexivity.
+  - destruct isbool; [contradiction|]. eexists. split; [reflexivity|]. cbn [mem_ctor].
+    apply mem_roundtrip. assumption.
+Qed.
+
+(* frozensets: first-occurrence dedup; a list built that way is a fixed point of frozenset() *)
+Inductive pyd : list val -> Prop :=
+| pyd_nil : pyd []
+| pyd_snoc : forall l v, pyd l -> mem_val v l = false -> pyd (l ++ [v]).
+
+Lemma fs_add_pyd : forall acc v, pyd acc -> pyd (fs_add acc v).
+Proof. intros acc v H. unfold fs_add. destruct (mem_val v acc) eqn:E; auto. constructor; auto. Qed.
+
+Lemma fold_fs_add_pyd : forall l acc, pyd acc -> pyd (fold_left fs_add l acc).
+Proof. induction l; simpl; intros; auto. apply IHl. apply fs_add_pyd. auto. Qed.
+
+Lemma fs_of_pyd : forall l, pyd (fs_of l).
+Proof. intros. apply fold_fs_add_pyd. constructor. Qed.
+
+Lemma pyd_fixed : forall l, pyd l -> fs_of l = l.
+Proof.
+  intros l H. induction H; auto. unfold fs_of in *. rewrite fold_left_app. rewrite IHpyd.
+  simpl. unfold fs_add. rewrite H0. reflexivity.
+Qed.
+
+Lemma coerce_all_pyd : forall p l acc r, coerce_all p l acc = Ok r -> pyd acc -> pyd r.
+Proof.
+  induction l as [|v l IH]; intros acc r H Ha; simpl in H.
+  - injection H as H. subst. auto.
+  - destruct (coerce_single p v); simpl in H; [|discriminate]. apply (IH _ _ H). apply fs_add_pyd. auto.
+Qed.
+
+Definition reseal (sp : spec) (n : str) (x : sval) : sval :=
+  {| v_value := v_value x; v_source := v_source x; v_scope := v_scope x;
+     v_secret := match find_setting (sp_settings sp) n with Some st => s_secret st | None => false end |}.
+
+(* bindings whose JSON form is covered by the theorem: scalar settings with a well-formed value and
+   set-valued settings of bool/int/str/float (elements are written and read back unchanged) *)
+Definition wf_binding (sp : spec) (n : str) (x : sval) : Prop :=
+  exists st p, find_setting (sp_settings sp) n = Some st /\ s_type st = SPrim p /\
+    if s_set_of st then is_scalar_type p = false /\ exists l, v_value x = VList l /\ pyd l
+    else wf_prim p (v_value x).
+
+Lemma scope_str_rt : forall sc, scope_of_str (scope_str sc) = Some sc.
+Proof. intros []; reflexivity. Qed.
+
+Lemma entry_fields : forall a b c d : val,
+  assoc [(k_name, a); (k_source, b); (k_scope, c); (k_value, d)] k_value = Some d /\
+  assoc [(k_name, a); (k_source, b); (k_scope, c); (k_value, d)] k_source = Some b /\
+  assoc [(k_name, a); (k_source, b); (k_scope, c); (k_value, d)] k_scope = Some c.
+Proof. intros. repeat split; reflexivity. Qed.
+
+Lemma binding_rt : forall sp n x, wf_binding sp n x ->
+  exists st j, find_setting (sp_settings sp) n = Some st /\
+    value_to_json sp st (v_value x) = Ok j /\ value_from_json sp st j = Ok (v_value x).
+Proof.
+  intros sp n x [st [p [Hf [Ht H]]]]. exists st.
+  destruct (s_set_of st) eqn:Hs.
+  - destruct H as [Hsc [l [Hv Hp]]]. exists (VList l). split; auto.
+    unfold value_to_json, value_from_json. rewrite Ht, Hs, Hv, Hsc.
+    rewrite (pyd_fixed _ Hp). destruct p; try discriminate Hsc; split; reflexivity.
+  - destruct (p_json_prim sp st p (v_value x) Ht Hs H) as [j [H1 H2]]. exists j. auto.
+Qed.
+
+Definition rt_step (sp : spec) (a : storage) (kv : str * sval) : storage :=
+  st_set a (fst kv) (reseal sp (fst kv) (snd kv)).
+
+Lemma json_rt_gen : forall sp m acc, (forall n x, In (n, x) m -> wf_binding sp n x) ->
+  exists js, to_json sp m = Ok js /\ from_json sp js acc = Ok (fold_left (rt_step sp) m acc).
+Proof.
+  induction m as [|[n x] m IH]; intros acc Hwf.
+  - exists []. split; reflexivity.
+  - destruct (binding_rt sp n x (Hwf n x (or_introl eq_refl))) as [st [j [Hf [Hto Hfrom]]]].
+    destruct (IH (rt_step sp acc (n, x)) (fun n' x' H => Hwf n' x' (or_intror H))) as [js [Hj1 Hj2]].
+    eexists. split.
+    + cbn [to_json]. rewrite Hf, Hto. cbn [bind]. rewrite Hj1. cbn [bind]. reflexivity.
+    + cbn [from_json]. rewrite Hf.
+      destruct (entry_fields (VStr n) (VStr (v_source x)) (VStr (scope_str (v_scope x))) j) as [E1 [E2 E3]].
+      rewrite E1, E2, E3. rewrite scope_str_rt. rewrite Hfrom. cbn [bind].
+      cbn [fold_left].
+      assert (Er : rt_step sp acc (n, x) =
+                   st_set acc n {| v_value := v_value x; v_source := v_source x; v_scope := v_scope x;
+                                   v_secret := s_secret st |}).
+      { unfold rt_step, reseal. cbn [fst snd]. rewrite Hf. reflexivity. }
+      rewrite <- Er. exact Hj2.
+Qed.
+
+Lemma assoc_not_in : forall (m : storage) q, ~ In q (map fst m) -> assoc m q = None.
+Proof.
+  induction m as [|[k y] m IH]; intros q H; simpl; auto.
+  destruct (str_eqb k q) eqn:E.
+  - apply str_eqb_eq in E. subst. exfalso. apply H. left. reflexivity.
+  - apply IH. intro. apply H. right. auto.
+Qed.
+
+Lemma fold_rt_assoc : forall sp m acc q, NoDup (map fst m) ->
+  assoc (fold_left (rt_step sp) m acc) q =
+  match assoc m q with Some x => Some (reseal sp q x) | None => assoc acc q end.
+Proof.
+  induction m as [|[n x] m IH]; intros acc q Hnd; simpl; auto.
+  inversion Hnd as [|? ? Hni Hnd']; subst.
+  rewrite IH by assumption.
+  replace (rt_step sp acc (n, x)) with (st_set acc n (reseal sp n x)) by reflexivity.
+  destruct (str_eqb n q) eqn:E.
+  - apply str_eqb_eq in E. subst q. rewrite (assoc_not_in _ _ Hni). apply assoc_st_set_same.
+  - apply str_eqb_neq in E. destruct (assoc m q); auto. apply assoc_st_set_other. auto.
+Qed.
+
+(* from_json (to_json m) gives back every value, source and scope (the secret flag is re-derived
+   from the spec) *)
+Theorem p_json_roundtrip : forall sp m, NoDup (map fst m) ->
+  (forall n x, In (n, x) m -> wf_binding sp n x) ->
+  exists m', json_roundtrip sp m = Ok m' /\
+    forall q, assoc m' q = option_map (reseal sp q) (assoc m q).
+Proof.
+  intros sp m Hnd Hwf. destruct (json_rt_gen sp m [] Hwf) as [js [H1 H2]].
+  exists (fold_left (rt_step sp) m []). split.
+  - unfold json_roundtrip. rewrite H1. cbn [bind]. exact H2.
+  - intros q. rewrite fold_rt_assoc by assumption. destruct (assoc m q); reflexivity.
+Qed.
+
+(* ================================================================== object sets: INSERT / filtered RESET *)
+Lemma uniq_all_app : forall sp a b st,
+  uniq_all sp (a ++ b) st = (do s1 <- uniq_all sp a st; uniq_all sp b s1).
+Proof.
+  induction a as [|o a IH]; intros b st; cbn [uniq_all Datatypes.app bind]; auto.
+  destruct (uniq_step sp st o); cbn [bind]; auto.
+Qed.
+
+Lemma uniq_step_fst : forall sp news e o st', uniq_step sp (news, e) o = Ok st' ->
+  fst st' = news ++ [o] /\ mem_val o news = false.
+Proof.
+  intros sp news e o st' H. unfold uniq_step in H.
+  destruct o; try discriminate.
+  destruct (find_type (sp_types sp) tname); [|discriminate].
+  destruct (uniq_fields (sp_types sp) t flds e); cbn [bind] in H; [|discriminate].
+  destruct (mem_val (VObj tname flds) news) eqn:E; [discriminate|].
+  injection H as H. subst. auto.
+Qed.
+
+Lemma uniq_all_fst : forall sp objs news e st', uniq_all sp objs (news, e) = Ok st' ->
+  pyd news -> fst st' = news ++ objs /\ pyd (fst st').
+Proof.
+  induction objs as [|o objs IH]; intros news e st' H Hp; cbn [uniq_all] in H.
+  - injection H as H. subst. simpl. rewrite app_nil_r. auto.
+  - destruct (uniq_step sp (news, e) o) as [[n1 e1]|] eqn:E; cbn [bind] in H; [|discriminate].
+    destruct (uniq_step_fst _ _ _ _ _ E) as [F1 F2]. simpl in F1. subst n1.
+    destruct (IH _ _ _ H (pyd_snoc _ _ Hp F2)) as [G1 G2]. split; auto.
+    rewrite G1. rewrite <- app_assoc. reflexivity.
+Qed.
+
+Definition obj_set_setting (sp : spec) (n : str) (st : setting) : Prop :=
+  find_setting (sp_settings sp) n = Some st /\ is_obj_setting st = true.
+
+Definition existing (st : setting) (cur : option sval) : val :=
+  match cur with Some c => v_value c | None => s_default st end.
+
+(* INSERT: the stored set is exactly the old elements plus the new object, which is not equal to any
+   of them; at most MAX_CONFIG_SET_SIZE elements *)
+Theorem p_set_insert : forall sp o cur st l c',
+  obj_set_setting sp (o_name o) st -> o_code o = OAdd -> existing st cur = VList l ->
+  apply_cell sp o cur = Ok c' ->
+  exists v x, coerce_value sp st OAdd (o_value o) false = Ok v /\ c' = Some x /\
+    v_value x = VList (l ++ [v]) /\ mem_val v l = false /\ pyd (l ++ [v]) /\
+    (length (l ++ [v]) <= g_max_set)%nat /\ v_scope x = o_scope o.
+Proof.
+  intros sp o cur st l c' [Hf Ho] Hc He Ha. unfold apply_cell in Ha. rewrite Hf, Hc in Ha.
+  destruct (coerce_value sp st OAdd (o_value o) false) as [v|] eqn:Ecv; cbn [bind] in Ha; [|discriminate].
+  rewrite Ho in Ha. cbn [negb] in Ha. unfold existing in He. rewrite He in Ha.
+  unfold check_uniq in Ha.
+  destruct (uniq_all sp (l ++ [v]) ([], [])) as [[news e]|] eqn:Eu; cbn [bind] in Ha; [|discriminate].
+  cbn [fst] in Ha. destruct (too_large news) eqn:Etl; cbn [bind] in Ha; [discriminate|].
+  injection Ha as Ha. subst c'.
+  pose proof Eu as Eu2. rewrite uniq_all_app in Eu2.
+  destruct (uniq_all sp l ([], [])) as [[n1 e1]|] eqn:E1; cbn [bind] in Eu2; [|discriminate].
+  destruct (uniq_all_fst _ _ _ _ _ E1 pyd_nil) as [F1 F2]. simpl in F1. subst n1.
+  cbn [uniq_all] in Eu2. destruct (uniq_step sp (l, e1) v) as [s2|] eqn:E2; cbn [bind] in Eu2; [|discriminate].
+  injection Eu2 as Eu2. subst s2.
+  destruct (uniq_step_fst _ _ _ _ _ E2) as [G1 G2]. simpl in G1. subst news.
+  exists v. eexists. repeat split; try reflexivity; auto.
+  - constructor; auto.
+  - unfold too_large in Etl. apply Nat.ltb_ge in Etl. exact Etl.
+Qed.
+
+(* filtered RESET: exactly the elements equal (Python ==) to the given object are removed *)
+Theorem p_set_remove : forall sp o cur st l c',
+  obj_set_setting sp (o_name o) st -> o_code o = ORem -> existing st cur = VList l ->
+  apply_cell sp o cur = Ok c' ->
+  exists v x l', coerce_value sp st ORem (o_value o) true = Ok v /\ c' = Some x /\ v_value x = VList l' /\
+    (forall y, In y l' <-> In y l /\ py_eq y v = false).
+Proof.
+  intros sp o cur st l c' [Hf Ho] Hc He Ha. unfold apply_cell in Ha. rewrite Hf, Hc in Ha.
+  destruct (coerce_value sp st ORem (o_value o) true) as [v|] eqn:Ecv; cbn [bind] in Ha; [|discriminate].
+  rewrite Ho in Ha. cbn [negb] in Ha. unfold existing in He. rewrite He in Ha.
+  injection Ha as Ha. subst c'. exists v. eexists. eexists. repeat split; try reflexivity.
+  - cbn in H. apply filter_In in H. tauto.
+  - cbn in H. apply filter_In in H. destruct H as [_ H]. apply negb_true_iff in H. exact H.
+  - intros [H1 H2]. cbn. apply filter_In. split; auto. rewrite H2. reflexivity.
+Qed.
+
+(* sets stored by SET are canonical frozensets (so the hypothesis of the JSON theorem is met by
+   every reachable binding of a set-valued bool/int/str/float setting) *)
+Theorem p_stored_set_canonical : forall sp o m m' p st,
+  find_setting (sp_settings sp) (o_name o) = Some st -> s_type st = SPrim p -> s_set_of st = true ->
+  o_code o = OSet -> apply sp o m = Ok m' ->
+  exists x l, assoc m' (o_name o) = Some x /\ v_value x = VList l /\ pyd l.
+Proof.
+  intros sp o m m' p st Hf Ht Hs Hc Ha. apply apply_own in Ha. unfold apply_cell in Ha.
+  rewrite Hf, Hc in Ha. unfold coerce_value in Ha. rewrite Ht, Hs in Ha.
+  destruct (o_value o) eqn:Ev; try discriminate;
+    cbn [container_elems] in Ha;
+    match type of Ha with
+    | context [coerce_all p ?es []] =>
+        destruct (coerce_all p es []) as [lst|e] eqn:Eall; cbn [bind] in Ha; [|discriminate];
+        destruct (too_large lst); cbn [bind] in Ha; [discriminate|];
+        injection Ha as Ha; eexists; exists lst; split; [symmetry; exact Ha|]; cbn; split; auto;
+        eapply coerce_all_pyd; eauto; constructor
+    end.
+Qed.
